@@ -60,6 +60,9 @@ pub enum Error {
     /// missing abstract syntax to begin negotiation
     MissingAbstractSyntax { backtrace: Backtrace },
 
+    /// too many presentation contexts proposed (at most 128 fit in one association request)
+    TooManyPresentationContexts { backtrace: Backtrace },
+
     /// could not convert to socket address
     ToAddress {
         source: std::io::Error,
